@@ -1621,6 +1621,10 @@ impl Prop for P {
             "quick tier runs at the native CPU tier only (no SIMD tier cap hook yet)".into(),
         ]
     }
+    fn tier_caps(&self) -> Vec<(&'static str, f64)> {
+        // hook H2: the same generated cases also run with run-time CPU detection capped
+        vec![("scalar", 0.12), ("sse42", 0.12), ("avx2", 0.12)]
+    }
     fn plans(&self, tier: Tier) -> Vec<Plan> {
         let q = |a, b| tier.pick(a, b);
         let mut v = vec![];
